@@ -26,6 +26,7 @@ func runC11(c *Ctx) {
 	c11R5(c, "R5")
 	c11R6(c, "R6")
 	callNonFunction(c, "R11")
+	everyArgumentEvaluated(c, "R13")
 	c.shared("R12", "C14/R1", "nothing is written after a fault: the command-line tool returns at once with a non-zero status on every error, and the JSON output is produced only after EvalProgram succeeded", keyHas("error-source", "json-after-successful-run", "success-exit"), func(s *Ctx) {
 		cliExitDiscipline(s, "R1")
 		jsonTextAsData(s, "R1")
